@@ -25,6 +25,11 @@ def _also_nostats(ctx, tier, run, fns):
     run.note('core rules repeated on cachelito-core --no-default-features: %d more instances' % (len(run.instances) - before))
 
 
+# properties whose rules read cache updates off the facts: those facts are built with debug assertions on, so an update written inside
+# debug_assert! (absent from release builds) has to be ruled out separately
+DEBUG_ONLY_RULE = ('C01', 'C03', 'C04', 'C05', 'C06', 'C07', 'C08', 'C11', 'C12', 'C13', 'C15', 'C18', 'C20')
+
+
 def run(pid, tier):
     fn = globals().get('prop_' + pid)
     if fn is None:
@@ -36,6 +41,9 @@ def run(pid, tier):
         return fail_closed(pid, tier, '%s: %s' % (type(e).__name__, e))
     try:
         r = fn(ctx, tier)
+        if pid in DEBUG_ONLY_RULE:
+            from . import rules_x as X
+            X.check_no_effects_in_debug_assert(r, ctx, '%s-D1' % pid)
     except Exception as e:
         traceback.print_exc()
         return fail_closed(pid, tier, 'analysis crashed: %s: %s' % (type(e).__name__, e))
